@@ -12,6 +12,7 @@ P = ['C02', 'C01', 'C12']
 
 def build():
     U = Unit('SHORT', props=P)
+    U.tag_loops = True     # loop invariants state property-relevant facts about abstractions: a failing one is reported
     k = U.file(SK)
     k.item('enum', 'SyntaxKind')
     k.item('macro_rules', 'T')
